@@ -1312,6 +1312,23 @@ pub fn run_prop(ctx: &mut Ctx, prop: &str) {
             }
             ctx.flush_model("C05-pst13");
         }
+        "C03" => {
+            let n = ctx.n(12, 120);
+            for i in 0..n {
+                shape_case(ctx, i);
+            }
+            ctx.flush_model("C03-pst13");
+        }
+        "C06" => {
+            let n = ctx.n(24, 300);
+            for i in 0..n {
+                lc_case(ctx, i);
+                if i % 8 == 7 {
+                    ctx.flush_model(&format!("C06-pst13-{}", i / 8));
+                }
+            }
+            ctx.flush_model("C06-pst13");
+        }
         "C07" => {
             let n = ctx.n(24, 300);
             for i in 0..n {
@@ -1453,6 +1470,701 @@ fn blinding_case(ctx: &mut Ctx, i: usize) {
         &format!("pst13 blinding nv={} D={} s={} poly={} hb={:?} draws={}", nv, d, s, kind, hb, ndraws),
         Some(format!("pst13-c07/{}/{}/{:?}/{}", nv, s, hb, kind)),
     );
+}
+
+// ------------------------------------------------------------------------------------------------
+// shared environment of the per-property PST13 cases below
+// ------------------------------------------------------------------------------------------------
+
+struct Env {
+    trap: Trap,
+    nv: usize,
+    d: usize,
+    s: usize,
+    ck: CK,
+    vk: VK,
+    polys: Vec<LabeledPolynomial<Fr, MvPoly>>,
+    hbs: Vec<Option<usize>>,
+    comms: Vec<LabeledCommitment<Comm>>,
+    states: Vec<Rand>,
+    c_scalars: Vec<Fr>,
+    head: String,
+}
+
+impl Env {
+    fn plain(&self) -> Vec<MvPoly> {
+        self.polys.iter().map(|p| p.polynomial().clone()).collect()
+    }
+    fn blinds(&self) -> Vec<MvPoly> {
+        self.states.iter().map(|s| s.blinding_polynomial.clone()).collect()
+    }
+}
+
+/// trapdoor key, `npoly` committed polynomials of degree <= s (hiding at random when `hiding`);
+/// `None` (with an expectation failure recorded) when the library refuses an in-domain request
+fn make_env(ctx: &mut Ctx, id: &str, rng: &mut Rng, nv: usize, d: usize, s: usize, npoly: usize, hiding: bool) -> Option<Env> {
+    let trap = Trap::random(rng, nv, d);
+    let pp = trap.params();
+    let head = format!("{}# supported_degree={} case={} seed={}\n", trap.desc(), s, id, ctx.seed);
+    let (ck, vk): (CK, VK) = match guarded(|| PC::trim(&pp, s, 0, None)) {
+        Ok(Ok(x)) => x,
+        other => {
+            ctx.rep.expect_fail(id, "pst13/trim-refused", &format!("trim refused in-domain parameters: {:?}", other.err()), head);
+            return None;
+        }
+    };
+    let mut polys = vec![];
+    let mut hbs = vec![];
+    for j in 0..npoly {
+        let deg = if coin(rng) { s } else { range(rng, 0, s) };
+        let (p, _) = gen_poly(rng, nv, deg);
+        let hb = if hiding && coin(rng) { Some(range(rng, 1, s)) } else { None };
+        hbs.push(hb);
+        polys.push(LabeledPolynomial::new(format!("p{}", j), p, None, hb));
+    }
+    let head = format!(
+        "{}# polynomials: {}\n# hiding bounds: {:?}\n",
+        head,
+        polys_val(&polys.iter().map(|p| p.polynomial().clone()).collect::<Vec<_>>()),
+        hbs
+    );
+    let (comms, states): (Vec<LabeledCommitment<Comm>>, Vec<Rand>) = match guarded(|| PC::commit(&ck, polys.iter(), Some(&mut *rng))) {
+        Ok(Ok(x)) => x,
+        other => {
+            ctx.rep.expect_fail(id, "pst13/commit-refused", &format!("commit refused an in-domain polynomial: {:?}", other.err().or(Some("Err".into()))), head);
+            return None;
+        }
+    };
+    let c_scalars: Vec<Fr> = (0..npoly)
+        .map(|j| trap.g * polys[j].polynomial().evaluate(&trap.betas) + trap.gamma * states[j].blinding_polynomial.evaluate(&trap.betas))
+        .collect();
+    if (0..npoly).any(|j| g1(c_scalars[j]) != comms[j].commitment().comm.0) {
+        ctx.rep.expect_fail(id, "pst13/commitment-not-key-defined", "commitment != g·p(beta) + gamma·r(beta)", head);
+        return None;
+    }
+    Some(Env { trap, nv, d, s, ck, vk, polys, hbs, comms, states, c_scalars, head })
+}
+
+fn outcome_of(out: Result<Result<bool, ark_poly_commit::Error>, String>) -> ImplOutcome {
+    match out {
+        Ok(Ok(b)) => ImplOutcome::Ok(vec![("b".into(), Expect::Bool(b))]),
+        Ok(Err(e)) => ImplOutcome::Refuse(err_kind(&e)),
+        Err(a) => ImplOutcome::Refuse(a),
+    }
+}
+
+// ------------------------------------------------------------------------------------------------
+// C03: the shape of the proof (witness list shorter / longer, elements replaced, random_v toggled)
+// ------------------------------------------------------------------------------------------------
+
+/// One honest opening of 1..2 polynomials at a point with `extra` surplus coordinates, then every
+/// shape mutation of the proof against the true and against a false claim, through `check` and
+/// through `batch_check`; both verifiers are compared with the model, and no false claim may be
+/// accepted.
+fn shape_case(ctx: &mut Ctx, i: usize) {
+    let id = format!("C03/pst13/{}", i);
+    if !ctx.selected(&id) {
+        return;
+    }
+    let mut rng = rng_for(ctx.seed, "C03/pst13", i as u64);
+    let nv = range(&mut rng, 1, if ctx.thorough { 4 } else { 3 });
+    let d = range(&mut rng, 1, 3);
+    let s = range(&mut rng, 1, d);
+    let npoly = range(&mut rng, 1, 2);
+    let env = match make_env(ctx, &id, &mut rng, nv, d, s, npoly, true) {
+        Some(e) => e,
+        None => return,
+    };
+    // surplus coordinates of the point (in-domain: the scheme reads the first num_vars of them)
+    let extra = match i % 4 {
+        0 => 1,
+        1 => 2,
+        _ => 0,
+    };
+    let z: Vec<Fr> = (0..nv + extra).map(|_| rand_nonzero(&mut rng)).collect();
+    let mut sponge = fresh();
+    sponge.absorb_seed(0xC03 + i as u64);
+    let vsponge = sponge.clone();
+    let proof: Proof<Bls12_381> = match guarded(|| PC::open(&env.ck, env.polys.iter(), env.comms.iter(), &z, &mut sponge, env.states.iter(), None)) {
+        Ok(Ok(p)) => p,
+        other => {
+            ctx.rep.expect_fail(&id, "pst13/open-refused", &format!("open refused a committed polynomial at a point with {} surplus coordinates: {:?}", extra, other.err().or(Some("Err".into()))), format!("{}# point {}\n", env.head, wire::fes(&z)));
+            return;
+        }
+    };
+    let xis = sponge.challenges();
+    let plain = env.plain();
+    let blinds = env.blinds();
+    if xis.len() != npoly || proof.w.len() != nv {
+        ctx.rep.count("pst13/c03-unexpected-shape");
+        return;
+    }
+    // witness scalars
+    let mut ws: Vec<Fr> = vec![];
+    for v in 0..nv {
+        let mut acc = Fr::zero();
+        for j in 0..npoly {
+            match (quotient_at(&plain[j], &z, &env.trap.betas, v), quotient_at(&blinds[j], &z, &env.trap.betas, v)) {
+                (Some(a), Some(b)) => acc += xis[j] * (env.trap.g * a + env.trap.gamma * b),
+                _ => return,
+            }
+        }
+        ws.push(acc);
+    }
+    if ws.iter().zip(proof.w.iter()).any(|(s, w)| g1(*s) != *w) {
+        ctx.rep.count("pst13/witness-differs-from-sequential-quotient");
+        return;
+    }
+    let values: Vec<Fr> = plain.iter().map(|p| p.evaluate(&z)).collect();
+    let j0 = range(&mut rng, 0, npoly - 1);
+    let delta = rand_nonzero(&mut rng);
+    let mut false_values = values.clone();
+    false_values[j0] += delta;
+    // the mutation catalogue: (name, witness scalars, random_v)
+    let rv = proof.random_v;
+    let mut muts: Vec<(String, Vec<Fr>, Option<Fr>)> = vec![("honest".into(), ws.clone(), rv)];
+    for k in 0..nv {
+        muts.push((format!("truncate-{}", k), ws[..k].to_vec(), rv));
+    }
+    for j in 0..nv {
+        let mut w2 = ws.clone();
+        w2[j] = Fr::rand(&mut rng);
+        muts.push((format!("replace-{}", j), w2, rv));
+        // the element that cancels the false value in the pairing relation would need beta_j:
+        // w_j + g·xi·delta/(beta_j - z_j) — computable here because the trapdoor is known
+        if let Some(inv) = (env.trap.betas[j] - z[j]).inverse() {
+            let mut w3 = ws.clone();
+            w3[j] -= env.trap.g * xis[j0] * delta * inv;
+            muts.push((format!("trapdoor-forge-{}", j), w3, rv));
+        }
+    }
+    {
+        let mut w2 = ws.clone();
+        w2.push(Fr::rand(&mut rng));
+        muts.push(("extend-random".into(), w2, rv));
+        let mut w3 = ws.clone();
+        w3.push(Fr::zero());
+        muts.push(("extend-identity".into(), w3, rv));
+        let mut w4 = ws.clone();
+        w4.push(Fr::rand(&mut rng));
+        w4.push(Fr::rand(&mut rng));
+        muts.push(("extend-two".into(), w4, rv));
+        if extra > 0 {
+            // an extra element computable from the PUBLIC key element g: (xi·delta / z[nv])·g
+            let mut w5 = ws.clone();
+            w5.push(env.trap.g * xis[j0] * delta * z[nv].inverse().unwrap());
+            muts.push(("extend-public-forge".into(), w5, rv));
+        }
+    }
+    match rv {
+        Some(x) => {
+            muts.push(("rv-changed".into(), ws.clone(), Some(x + rand_nonzero(&mut rng))));
+            muts.push(("rv-dropped".into(), ws.clone(), None));
+        }
+        None => muts.push(("rv-added".into(), ws.clone(), Some(rand_nonzero(&mut rng)))),
+    }
+    let mut qs: ark_poly_commit::QuerySet<Vec<Fr>> = ark_poly_commit::QuerySet::new();
+    for j in 0..npoly {
+        qs.insert((format!("p{}", j), ("z".to_string(), z.clone())));
+    }
+    for (name, w, rvm) in muts.iter() {
+        let kind: String = name.split('-').take_while(|t| t.parse::<usize>().is_err()).collect::<Vec<_>>().join("-");
+        let pm = Proof::<Bls12_381> { w: g1s(w), random_v: *rvm };
+        for (claim, vals) in [("true", &values), ("false", &false_values)] {
+            let cid = format!("{}/{}/{}", id, name, claim);
+            let txt = format!(
+                "{}# point {} ({} surplus coordinates)\n# claimed values {} ({} claim)\n# proof shape: {} -> witness scalars {} random_v {}\n",
+                env.head, wire::fes(&z), extra, wire::fes(vals), claim, name, wire::fes(w), wire::opt_fe(rvm)
+            );
+            // check
+            let mut sp = vsponge.clone();
+            let out = guarded(|| PC::check(&env.vk, env.comms.iter(), &z, vals.to_vec(), &pm, &mut sp, None));
+            let vx = sp.challenges();
+            let o = outcome_of(out);
+            if claim == "false" && accepted(&o) && !name.starts_with("trapdoor-forge") {
+                ctx.rep.expect_fail(&cid, &format!("pst13/false-value-accepted/check/{}", kind), &format!("check accepted a false value with a proof of shape `{}`", name), txt.clone());
+            }
+            if claim == "true" && name == "honest" && !accepted(&o) {
+                ctx.rep.expect_fail(&cid, "pst13/honest-rejected", "check rejected the honest proof", txt.clone());
+            }
+            ctx.ses.ask(
+                &format!("{}/check", cid),
+                env.trap
+                    .key_args(Req::new("c15.check"), env.s)
+                    .arg("cs", wire::fes(&env.c_scalars))
+                    .arg("z", wire::fes(&z))
+                    .arg("vs", wire::fes(vals))
+                    .arg("w", wire::fes(w))
+                    .arg("rv", wire::opt_fe(rvm))
+                    .arg("xis", wire::fes(&vx)),
+                o.clone(),
+            );
+            // batch_check over the one-point query set
+            let mut evals: ark_poly_commit::Evaluations<Vec<Fr>, Fr> = ark_poly_commit::Evaluations::new();
+            for j in 0..npoly {
+                evals.insert((format!("p{}", j), z.clone()), vals[j]);
+            }
+            let rs = crate::kzg::replay_u128(&rng, 1);
+            let mut bsp = vsponge.clone();
+            let bout = guarded(|| PC::batch_check(&env.vk, env.comms.iter(), &qs, &evals, &vec![pm.clone()], &mut bsp, &mut rng));
+            let bx = bsp.challenges();
+            let bo = outcome_of(bout);
+            if claim == "false" && accepted(&bo) && !name.starts_with("trapdoor-forge") {
+                ctx.rep.expect_fail(&cid, &format!("pst13/false-value-accepted/batch_check/{}", kind), &format!("batch_check accepted a false value with a proof of shape `{}` (check on the same input: {:?})", name, o), txt.clone());
+            }
+            if claim == "true" && name == "honest" && !accepted(&bo) {
+                ctx.rep.expect_fail(&cid, "pst13/honest-rejected", "batch_check rejected the honest proof", txt.clone());
+            }
+            ctx.ses.ask(
+                &format!("{}/batch", cid),
+                env.trap
+                    .key_args(Req::new("c15.batch_check_q"), env.s)
+                    .arg("css", wire::fess(&[env.c_scalars.clone()]))
+                    .arg("vss", wire::fess(&[vals.to_vec()]))
+                    .arg("zs", wire::fess(&[z.clone()]))
+                    .arg("ws", wire::fess(&[w.clone()]))
+                    .arg("rvs", Val::L(vec![wire::opt_fe(rvm)]))
+                    .arg("xis", wire::fes(&bx))
+                    .arg("rs", wire::fes(&rs)),
+                bo.clone(),
+            );
+            ctx.rep.count(&format!("pst13/c03-{}-{}-check-{}", kind, claim, if accepted(&o) { "accepts" } else if matches!(o, ImplOutcome::Ok(_)) { "rejects" } else { "aborts" }));
+            ctx.rep.count(&format!("pst13/c03-{}-{}-batch-{}", kind, claim, if accepted(&bo) { "accepts" } else if matches!(bo, ImplOutcome::Ok(_)) { "rejects" } else { "aborts" }));
+            ctx.rep.case(
+                &format!("pst13 shape nv={} s={} polys={} surplus={} shape={} claim={}", nv, env.s, npoly, extra, name, claim),
+                Some(format!("pst13-c03/{}/{}/{}/{}/{}", nv, npoly, extra, kind, claim)),
+            );
+        }
+    }
+    let _ = (env.d, &env.hbs);
+}
+
+// ------------------------------------------------------------------------------------------------
+// C06: open_combinations / check_combinations (Marlin::open_combinations with PC = MarlinPST13)
+// ------------------------------------------------------------------------------------------------
+
+type LinComb = ark_poly_commit::LinearCombination<Fr>;
+type QSet = ark_poly_commit::QuerySet<Vec<Fr>>;
+type EvalMap = ark_poly_commit::Evaluations<Vec<Fr>, Fr>;
+
+fn opt_nats_val(v: &[Option<usize>]) -> Val {
+    Val::L(v.iter().map(|x| wire::opt_nat(*x)).collect())
+}
+fn labels_val<'a>(v: impl Iterator<Item = &'a String>) -> Val {
+    Val::L(v.map(|l| wire::label(l)).collect())
+}
+fn lpolys_args(r: Req, polys: &[LabeledPolynomial<Fr, MvPoly>]) -> Req {
+    r.arg("labels", labels_val(polys.iter().map(|p| p.label())))
+        .arg("polys", polys_val(&polys.iter().map(|p| p.polynomial().clone()).collect::<Vec<_>>()))
+        .arg("pnvs", wire::nats(&polys.iter().map(|p| p.polynomial().num_vars()).collect::<Vec<_>>()))
+        .arg("bounds", opt_nats_val(&polys.iter().map(|p| p.degree_bound()).collect::<Vec<_>>()))
+        .arg("hbs", opt_nats_val(&polys.iter().map(|p| p.hiding_bound()).collect::<Vec<_>>()))
+}
+fn rands_args(r: Req, states: &[Rand]) -> Req {
+    r.arg("rands", polys_val(&states.iter().map(|s| s.blinding_polynomial.clone()).collect::<Vec<_>>()))
+        .arg("rnvs", wire::nats(&states.iter().map(|s| s.blinding_polynomial.num_vars()).collect::<Vec<_>>()))
+}
+/// labelled commitments in scalar form (PST13 commitments: no shifted part, no bound)
+fn lcomms_args(r: Req, labels: &[String], cs: &[Fr]) -> Req {
+    r.arg("clabels", labels_val(labels.iter()))
+        .arg("cs", wire::fes(cs))
+        .arg("ss", Val::L(cs.iter().map(|_| wire::opt_fe::<Fr>(&None)).collect()))
+        .arg("cbounds", opt_nats_val(&vec![None; cs.len()]))
+}
+fn lcs_args(r: Req, lcs: &[LinComb]) -> Req {
+    use ark_poly_commit::LCTerm;
+    r.arg("lclabels", labels_val(lcs.iter().map(|l| l.label())))
+        .arg("lccoeffs", Val::L(lcs.iter().map(|l| wire::fes(&l.iter().map(|t| t.0).collect::<Vec<_>>())).collect()))
+        .arg("lcone", Val::L(lcs.iter().map(|l| Val::L(l.iter().map(|t| wire::nat(t.1.is_one() as usize)).collect())).collect()))
+        .arg(
+            "lcterms",
+            Val::L(
+                lcs.iter()
+                    .map(|l| {
+                        Val::L(
+                            l.iter()
+                                .map(|t| match &t.1 {
+                                    LCTerm::One => wire::label(""),
+                                    LCTerm::PolyLabel(s) => wire::label(s),
+                                })
+                                .collect(),
+                        )
+                    })
+                    .collect(),
+            ),
+        )
+}
+fn queries_args(r: Req, qs: &QSet) -> Req {
+    r.arg("qlabels", labels_val(qs.iter().map(|q| &q.0)))
+        .arg("qplabels", labels_val(qs.iter().map(|q| &(q.1).0)))
+        .arg("qpoints", wire::fess(&qs.iter().map(|q| (q.1).1.clone()).collect::<Vec<_>>()))
+}
+fn evals_args(r: Req, ev: &EvalMap) -> Req {
+    r.arg("elabels", labels_val(ev.keys().map(|k| &k.0)))
+        .arg("epoints", wire::fess(&ev.keys().map(|k| k.1.clone()).collect::<Vec<_>>()))
+        .arg("evals", wire::fes(&ev.values().cloned().collect::<Vec<_>>()))
+}
+
+/// the model's name of the implementation's outcome class (`""` = answered)
+fn kind_of<T>(r: &Result<Result<T, ark_poly_commit::Error>, String>) -> String {
+    match r {
+        Ok(Ok(_)) => String::new(),
+        // the shared model error type has no constructor for PolynomialDegreeTooLarge
+        Ok(Err(e)) => {
+            let k = err_kind(e);
+            if k == "polynomialDegreeTooLarge" {
+                "tooManyCoefficients".into()
+            } else {
+                k
+            }
+        }
+        Err(_) => "abort".into(),
+    }
+}
+
+/// the value of a combination at `z`: Σ coeff·p(z) + constants (unknown labels contribute nothing)
+fn lc_value(lc: &LinComb, polys: &[LabeledPolynomial<Fr, MvPoly>], z: &Vec<Fr>) -> Fr {
+    use ark_poly_commit::LCTerm;
+    let mut v = Fr::zero();
+    for (co, t) in lc.iter() {
+        match t {
+            LCTerm::One => v += *co,
+            LCTerm::PolyLabel(s) => {
+                if let Some(p) = polys.iter().rev().find(|p| p.label() == s) {
+                    v += *co * p.polynomial().evaluate(z);
+                }
+            }
+        }
+    }
+    v
+}
+
+fn lc_case(ctx: &mut Ctx, i: usize) {
+    use ark_poly_commit::{LCTerm, LinearCombination};
+    let id0 = format!("C06/pst13/{}", i);
+    if !ctx.selected(&id0) {
+        return;
+    }
+    let mut rng = rng_for(ctx.seed, "C06/pst13", i as u64);
+    let nv = range(&mut rng, 1, 3);
+    let d = range(&mut rng, 1, 3);
+    let s = if coin(&mut rng) { d } else { range(&mut rng, 1, d) };
+    let npoly = range(&mut rng, 2, 4);
+    let mut env = match make_env(ctx, &id0, &mut rng, nv, d, s, npoly, true) {
+        Some(e) => e,
+        None => return,
+    };
+    // the kind of this case
+    let kind = match i % 12 {
+        3 => "unknown-label",
+        5 => "bounded-mixed",
+        7 => "bounded-scaled",
+        9 => "bounded-alone",
+        10 => "unknown-query",
+        _ => "in-policy",
+    };
+    // a polynomial that carries a degree bound (commit and open never read it, the combination code does)
+    let bounded: Option<usize> = if kind.starts_with("bounded") { Some(range(&mut rng, 0, npoly - 1)) } else { None };
+    if let Some(b) = bounded {
+        let old = env.polys[b].clone();
+        env.polys[b] = LabeledPolynomial::new(old.label().clone(), old.polynomial().clone(), Some(env.s), old.hiding_bound());
+    }
+    let rand_coeff = |rng: &mut Rng| match range(rng, 0, 4) {
+        0 => Fr::zero(),
+        1 => Fr::one(),
+        2 => -Fr::one(),
+        _ => Fr::rand(rng),
+    };
+    let nlc = range(&mut rng, 1, 3);
+    let mut lcs: Vec<LinComb> = vec![];
+    for j in 0..nlc {
+        let mut lc = LinearCombination::empty(format!("lc{}", j));
+        if j == 0 && kind == "unknown-label" {
+            lc.push((Fr::rand(&mut rng), LCTerm::PolyLabel(env.polys[0].label().clone())));
+            lc.push((Fr::rand(&mut rng), LCTerm::PolyLabel("nosuch".to_string())));
+        } else if j == 0 && kind == "bounded-mixed" {
+            let b = bounded.unwrap();
+            lc.push((Fr::one(), LCTerm::PolyLabel(env.polys[b].label().clone())));
+            if coin(&mut rng) {
+                lc.push((Fr::rand(&mut rng), LCTerm::One));
+            } else {
+                lc.push((Fr::rand(&mut rng), LCTerm::PolyLabel(env.polys[(b + 1) % npoly].label().clone())));
+            }
+        } else if j == 0 && kind == "bounded-scaled" {
+            lc.push((Fr::from(2u64), LCTerm::PolyLabel(env.polys[bounded.unwrap()].label().clone())));
+        } else if j == 0 && kind == "bounded-alone" {
+            lc.push((Fr::one(), LCTerm::PolyLabel(env.polys[bounded.unwrap()].label().clone())));
+        } else {
+            let free: Vec<usize> = (0..npoly).filter(|k| Some(*k) != bounded).collect();
+            let nt = range(&mut rng, 1, 6);
+            let must = range(&mut rng, 0, nt - 1);
+            for t in 0..nt {
+                let coeff = rand_coeff(&mut rng);
+                if t != must && range(&mut rng, 0, 3) == 0 {
+                    lc.push((coeff, LCTerm::One));
+                } else {
+                    lc.push((coeff, LCTerm::PolyLabel(env.polys[free[range(&mut rng, 0, free.len() - 1)]].label().clone())));
+                }
+            }
+        }
+        lcs.push(lc);
+    }
+    // the query set over the combination labels: 1..3 point labels, possibly sharing a point value
+    let mut qs: QSet = QSet::new();
+    let mut ev: EvalMap = EvalMap::new();
+    let nl = range(&mut rng, 1, 3);
+    let mut pts: Vec<Vec<Fr>> = vec![];
+    for l in 0..nl {
+        let pt: Vec<Fr> = if l > 0 && coin(&mut rng) { pts[0].clone() } else { (0..nv).map(|_| Fr::rand(&mut rng)).collect() };
+        pts.push(pt.clone());
+        for (k, lc) in lcs.iter().enumerate() {
+            if coin(&mut rng) || (l == 0 && k == 0) {
+                qs.insert((lc.label().clone(), (format!("pt{}", l), pt.clone())));
+                ev.insert((lc.label().clone(), pt.clone()), lc_value(lc, &env.polys, &pt));
+            }
+        }
+    }
+    if kind == "unknown-query" {
+        qs.insert(("lc9".to_string(), ("pt0".to_string(), pts[0].clone())));
+        ev.insert(("lc9".to_string(), pts[0].clone()), Fr::rand(&mut rng));
+    }
+    let labels: Vec<String> = env.comms.iter().map(|c| c.label().clone()).collect();
+    let lc_txt = format!(
+        "{}# declared degree bounds: {:?}\n# combinations: {}\n# queries: {}\n# evaluations: {}\n",
+        env.head,
+        env.polys.iter().map(|p| p.degree_bound()).collect::<Vec<_>>(),
+        lcs.iter()
+            .map(|l| format!("{} = {}", l.label(), l.iter().map(|t| format!("{}*{:?}", wire::fe(&t.0), t.1)).collect::<Vec<_>>().join(" + ")))
+            .collect::<Vec<_>>()
+            .join(" ; "),
+        qs.iter().map(|q| format!("({}, {}, {})", q.0, (q.1).0, wire::fes(&(q.1).1))).collect::<Vec<_>>().join(" "),
+        ev.iter().map(|(k, v)| format!("({}, {}) -> {}", k.0, wire::fes(&k.1), wire::fe(v))).collect::<Vec<_>>().join(" ")
+    );
+    // ---------------- prover ----------------
+    let mut sp = fresh();
+    sp.absorb_seed(0xC06 + i as u64);
+    let vsponge = sp.clone();
+    let r = guarded(|| PC::open_combinations(&env.ck, &lcs, &env.polys, &env.comms, &qs, &mut sp, &env.states, Some(&mut rng.clone())));
+    let xis = sp.challenges();
+    let pad = |xs: &[Fr], tag: &str| -> Vec<Fr> {
+        let mut x = xs.to_vec();
+        let mut e = rng_for(3, tag, 5);
+        while x.len() < 2 * qs.len() + 4 {
+            x.push(Fr::rand(&mut e));
+        }
+        x
+    };
+    let preq = |op: &str| -> Req {
+        queries_args(lcs_args(lcomms_args(rands_args(lpolys_args(env.trap.key_args(Req::new(op), env.s), &env.polys), &env.states), &labels, &env.c_scalars), &lcs), &qs)
+            .arg("xis", wire::fes(&pad(&xis, &id0)))
+    };
+    let answered = matches!(r, Ok(Ok(_)));
+    match &r {
+        Ok(Ok(p)) => ctx.ses.ask(
+            &format!("{}/open", id0),
+            preq("pst13.open_combinations"),
+            ImplOutcome::Ok(vec![
+                ("ws".into(), Expect::G1s(p.proof.iter().flat_map(|x| x.w.clone()).collect())),
+                ("wlens".into(), Expect::Nats(p.proof.iter().map(|x| x.w.len()).collect())),
+                ("rvs".into(), Expect::Raw(Val::L(p.proof.iter().map(|x| wire::opt_fe(&x.random_v)).collect()))),
+                ("used".into(), Expect::Nat(xis.len())),
+            ]),
+        ),
+        Ok(Err(e)) => ctx.ses.ask(&format!("{}/open", id0), preq("pst13.open_combinations"), ImplOutcome::Refuse(err_kind(e))),
+        Err(a) => ctx.ses.ask(&format!("{}/open", id0), preq("pst13.open_combinations"), ImplOutcome::Refuse(a.clone())),
+    }
+    // the outcome class by name (the property names the errors)
+    ctx.ses.ask(
+        &format!("{}/open-kind", id0),
+        preq("pst13.open_combinations.kind"),
+        ImplOutcome::Ok(vec![("kind".into(), Expect::Raw(wire::label(&kind_of(&r))))]),
+    );
+    let want_kind = match kind {
+        "in-policy" | "bounded-alone" => "",
+        "unknown-label" | "unknown-query" => "missingPolynomial",
+        "bounded-mixed" => "equationHasDegreeBounds",
+        _ => "abort",
+    };
+    if kind_of(&r) != want_kind {
+        ctx.rep.expect_fail(
+            &id0,
+            &format!("pst13/lc-open-outcome/{}", kind),
+            &format!("open_combinations on a `{}` case ended with `{}`, expected `{}`", kind, kind_of(&r), want_kind),
+            lc_txt.clone(),
+        );
+    }
+    ctx.rep.count(&format!("pst13/lc-{}", kind));
+    ctx.rep.case(
+        &format!("pst13 lc nv={} s={} polys={} kind={} lcs={} queries={} answered={}", nv, env.s, npoly, kind, lcs.len(), qs.len(), answered),
+        Some(format!("pst13-lc/{}/{}/{}/{}", kind, nv, lcs.len(), qs.len())),
+    );
+    // ---------------- verifier ----------------
+    // point label -> (point, sorted combination labels): the order of the proofs and of the challenges
+    let mut groups: BTreeMap<String, (Vec<Fr>, BTreeSet<String>)> = BTreeMap::new();
+    for (l, (pl, pt)) in qs.iter() {
+        groups.entry(pl.clone()).or_insert((pt.clone(), BTreeSet::new())).1.insert(l.clone());
+    }
+    let proof = match r {
+        Ok(Ok(p)) => p,
+        _ => {
+            // refused by the prover: the verifier must refuse the same statement too (any proof list)
+            let dummy = ark_poly_commit::BatchLCProof::<Fr, Vec<Proof<Bls12_381>>> {
+                proof: groups.iter().map(|_| Proof::<Bls12_381> { w: g1s(&vec![Fr::one(); nv]), random_v: None }).collect(),
+                evals: None,
+            };
+            let mut vs = vsponge.clone();
+            let rs = crate::kzg::replay_u128(&rng, groups.len() + 1);
+            let out = guarded(|| PC::check_combinations(&env.vk, &lcs, &env.comms, &qs, &ev, &dummy, &mut vs, &mut rng));
+            let vx = pad(&vs.challenges(), &format!("{}/v", id0));
+            let vreq = |op: &str| -> Req {
+                evals_args(queries_args(lcs_args(lcomms_args(env.trap.key_args(Req::new(op), env.s), &labels, &env.c_scalars), &lcs), &qs), &ev)
+                    .arg("ws", wire::fess(&vec![vec![Fr::one(); nv]; groups.len()]))
+                    .arg("rvs", Val::L(groups.iter().map(|_| wire::opt_fe::<Fr>(&None)).collect()))
+                    .arg("xis", wire::fes(&vx))
+                    .arg("rs", wire::fes(&rs))
+            };
+            ctx.ses.ask(&format!("{}/refused-check", id0), vreq("pst13.check_combinations"), outcome_of(match &out { Ok(Ok(b)) => Ok(Ok(*b)), Ok(Err(e)) => Err(err_kind(e)), Err(a) => Err(a.clone()) }));
+            ctx.ses.ask(
+                &format!("{}/refused-check-kind", id0),
+                vreq("pst13.check_combinations.kind"),
+                ImplOutcome::Ok(vec![("kind".into(), Expect::Raw(wire::label(&kind_of(&out))))]),
+            );
+            // the verifier only sees commitments (made by `commit`, without bounds): a bound declared on a
+            // polynomial is invisible to it, so those statements are checked against the dummy proof
+            if matches!(out, Ok(Ok(true))) {
+                ctx.rep.expect_fail(&id0, &format!("pst13/lc-dummy-proof-accepted/{}", kind), "check_combinations accepted a dummy proof", lc_txt.clone());
+            }
+            if kind.starts_with("unknown") && kind_of(&out) != "missingPolynomial" {
+                ctx.rep.expect_fail(&id0, &format!("pst13/lc-check-outcome/{}", kind), &format!("check_combinations with an unknown label ended with `{}`, expected `missingPolynomial`", kind_of(&out)), lc_txt.clone());
+            }
+            return;
+        }
+    };
+    // witness scalars of each group's proof (linear in the polynomials)
+    let total: usize = groups.values().map(|g| g.1.len()).sum();
+    if proof.proof.len() != groups.len() || xis.len() != total {
+        ctx.rep.count("pst13/lc-unexpected-shape");
+        return;
+    }
+    let plain = env.plain();
+    let blinds = env.blinds();
+    let mut wss: Vec<Vec<Fr>> = vec![];
+    let mut off = 0;
+    let mut scalars_ok = true;
+    for (k, (_pl, (z, lbls))) in groups.iter().enumerate() {
+        let mut ws = vec![Fr::zero(); nv];
+        for (t, lbl) in lbls.iter().enumerate() {
+            let lc = lcs.iter().rev().find(|l| l.label() == lbl).unwrap();
+            for (co, term) in lc.iter() {
+                if let LCTerm::PolyLabel(pl) = term {
+                    let j = env.polys.iter().rposition(|p| p.label() == pl).unwrap();
+                    for v in 0..nv {
+                        match (quotient_at_padded(&plain[j], z, &env.trap.betas, v), quotient_at_padded(&blinds[j], z, &env.trap.betas, v)) {
+                            (Some(a), Some(b)) => ws[v] += xis[off + t] * *co * (env.trap.g * a + env.trap.gamma * b),
+                            _ => scalars_ok = false,
+                        }
+                    }
+                }
+            }
+        }
+        off += lbls.len();
+        if proof.proof[k].w.len() != nv || g1s(&ws) != proof.proof[k].w {
+            scalars_ok = false;
+        }
+        wss.push(ws);
+    }
+    if !scalars_ok {
+        ctx.rep.expect_fail(&id0, "pst13/lc-witness-not-key-defined", "a combination witness differs from the trapdoor-defined quotient commitment", lc_txt.clone());
+        return;
+    }
+    let rvs: Vec<Option<Fr>> = proof.proof.iter().map(|p| p.random_v).collect();
+    // the claim positions: every evaluation, every coefficient, every constant
+    struct Variant {
+        name: String,
+        lcs: Vec<LinComb>,
+        ev: EvalMap,
+        claim_false: bool,
+        want_kind: Option<&'static str>,
+    }
+    let mut variants: Vec<Variant> = vec![Variant { name: "honest".into(), lcs: lcs.clone(), ev: ev.clone(), claim_false: false, want_kind: Some("") }];
+    for (n, key) in ev.keys().cloned().enumerate() {
+        let mut e2 = ev.clone();
+        *e2.get_mut(&key).unwrap() += rand_nonzero(&mut rng);
+        variants.push(Variant { name: format!("value-{}", n), lcs: lcs.clone(), ev: e2, claim_false: true, want_kind: Some("") });
+    }
+    for li in 0..lcs.len() {
+        let terms: Vec<(Fr, LCTerm)> = lcs[li].iter().cloned().collect();
+        for ti in 0..terms.len() {
+            let mut t2 = terms.clone();
+            t2[ti].0 += rand_nonzero(&mut rng);
+            let mut l2 = lcs.clone();
+            l2[li] = LinearCombination::new(lcs[li].label().clone(), t2);
+            // the changed statement is false iff some queried value of this combination moves
+            let moved = ev.keys().any(|k| &k.0 == lcs[li].label() && lc_value(&l2[li], &env.polys, &k.1) != ev[k]);
+            let what = if terms[ti].1.is_one() { "constant" } else { "coeff" };
+            variants.push(Variant { name: format!("{}-{}-{}", what, li, ti), lcs: l2, ev: ev.clone(), claim_false: moved, want_kind: Some("") });
+        }
+    }
+    {
+        // an evaluation withheld; a combination naming an unknown polynomial on the verifier's side
+        let keys: Vec<_> = ev.keys().cloned().collect();
+        let mut e2 = ev.clone();
+        e2.remove(&keys[range(&mut rng, 0, keys.len() - 1)]);
+        variants.push(Variant { name: "missing-eval".into(), lcs: lcs.clone(), ev: e2, claim_false: false, want_kind: Some("missingEvaluation") });
+        let li = range(&mut rng, 0, lcs.len() - 1);
+        let mut terms: Vec<(Fr, LCTerm)> = lcs[li].iter().cloned().collect();
+        terms.push((Fr::rand(&mut rng), LCTerm::PolyLabel("nosuch".to_string())));
+        let mut l2 = lcs.clone();
+        l2[li] = LinearCombination::new(lcs[li].label().clone(), terms);
+        variants.push(Variant { name: "unknown-label".into(), lcs: l2, ev: ev.clone(), claim_false: false, want_kind: Some("missingPolynomial") });
+    }
+    for v in variants {
+        let id = format!("{}/{}", id0, v.name);
+        let vkind: String = v.name.split('-').take_while(|t| t.parse::<usize>().is_err()).collect::<Vec<_>>().join("-");
+        let mut vs = vsponge.clone();
+        let rs = crate::kzg::replay_u128(&rng, groups.len() + 1);
+        let out = guarded(|| PC::check_combinations(&env.vk, &v.lcs, &env.comms, &qs, &v.ev, &proof, &mut vs, &mut rng));
+        let acc = matches!(out, Ok(Ok(true)));
+        let vx = pad(&vs.challenges(), &id);
+        let vreq = |op: &str| -> Req {
+            evals_args(queries_args(lcs_args(lcomms_args(env.trap.key_args(Req::new(op), env.s), &labels, &env.c_scalars), &v.lcs), &qs), &v.ev)
+                .arg("ws", wire::fess(&wss))
+                .arg("rvs", Val::L(rvs.iter().map(|x| wire::opt_fe(x)).collect()))
+                .arg("xis", wire::fes(&vx))
+                .arg("rs", wire::fes(&rs))
+        };
+        ctx.ses.ask(&id, vreq("pst13.check_combinations"), outcome_of(match &out { Ok(Ok(b)) => Ok(Ok(*b)), Ok(Err(e)) => Err(err_kind(e)), Err(a) => Err(a.clone()) }));
+        let txt = format!(
+            "{}# verifier variant `{}`: combinations {} ; evaluations {}\n",
+            lc_txt,
+            v.name,
+            v.lcs.iter().map(|l| format!("{} = {}", l.label(), l.iter().map(|t| format!("{}*{:?}", wire::fe(&t.0), t.1)).collect::<Vec<_>>().join(" + "))).collect::<Vec<_>>().join(" ; "),
+            v.ev.iter().map(|(k, x)| format!("({}, {}) -> {}", k.0, wire::fes(&k.1), wire::fe(x))).collect::<Vec<_>>().join(" ")
+        );
+        if let Some(wk) = v.want_kind {
+            if !wk.is_empty() {
+                ctx.ses.ask(
+                    &format!("{}/kind", id),
+                    vreq("pst13.check_combinations.kind"),
+                    ImplOutcome::Ok(vec![("kind".into(), Expect::Raw(wire::label(&kind_of(&out))))]),
+                );
+            }
+            if kind_of(&out) != wk {
+                ctx.rep.expect_fail(&id, &format!("pst13/lc-check-outcome/{}", vkind), &format!("check_combinations ended with `{}`, expected `{}`", kind_of(&out), wk), txt.clone());
+            }
+        }
+        if v.name == "honest" && !acc {
+            ctx.rep.expect_fail(&id, "pst13/lc-honest-rejected", &format!("honest combination proof not accepted: {:?}", out.as_ref().map(|r| r.as_ref().map_err(|e| err_kind(e)))), txt.clone());
+        }
+        if v.claim_false && acc {
+            ctx.rep.expect_fail(&id, &format!("pst13/lc-false-accepted/{}", vkind), "a changed combination statement (false claim) was accepted with the honest proof", txt.clone());
+        }
+        ctx.rep.count(&format!("pst13/lc-check-{}-{}", vkind, if acc { "accepted" } else { "not-accepted" }));
+        if v.name != "honest" && !v.claim_false && v.want_kind == Some("") {
+            ctx.rep.count("pst13/lc-perturbation-keeps-claim-true");
+        }
+        ctx.rep.case(&format!("pst13 lc check {} nv={} groups={} acc={}", v.name, nv, groups.len(), acc), Some(format!("pst13-lc-check/{}/{}", vkind, i)));
+    }
 }
 
 pub fn run(ctx: &mut Ctx) {
